@@ -7,6 +7,7 @@ import (
 	"errors"
 	"fmt"
 	"io"
+	"sync"
 
 	"github.com/hashicorp/raft"
 )
@@ -86,4 +87,47 @@ func (r *Raft) VerifSnapshot(msec int64) ([]byte, error) {
 // VerifRestore runs the state machine's Restore on snapshot bytes.
 func (r *Raft) VerifRestore(b []byte) error {
 	return r.verifFSM().Restore(io.NopCloser(bytes.NewReader(b)))
+}
+
+var (
+	verifSnapMu sync.Mutex
+	verifSnaps  = map[int]raft.FSMSnapshot{}
+	verifSnapID int
+)
+
+// VerifSnapshotBegin runs the state machine's Snapshot (the step raft performs on the state-machine
+// goroutine, between two applies) and keeps the result for a later VerifSnapshotPersist.
+func (r *Raft) VerifSnapshotBegin() (int, error) {
+	snap, err := r.verifFSM().Snapshot()
+	if err != nil {
+		return 0, err
+	}
+	verifSnapMu.Lock()
+	defer verifSnapMu.Unlock()
+	verifSnapID++
+	verifSnaps[verifSnapID] = snap
+	return verifSnapID, nil
+}
+
+// VerifSnapshotPersist runs Persist + Release of a snapshot begun earlier (raft does this later, on
+// another goroutine, while further entries are being applied) and returns the snapshot bytes.
+func (r *Raft) VerifSnapshotPersist(id int, msec int64) ([]byte, error) {
+	verifSnapMu.Lock()
+	snap := verifSnaps[id]
+	delete(verifSnaps, id)
+	verifSnapMu.Unlock()
+	if snap == nil {
+		return nil, errors.New("no such snapshot")
+	}
+	defer snap.Release()
+	sink := &verifSink{id: fmt.Sprintf("1-1-%d", msec)}
+	if err := snap.Persist(sink); err != nil {
+		return nil, err
+	}
+	return sink.buf.Bytes(), nil
+}
+
+// VerifApply hands one committed log entry to the state machine, as raft does when it replays a log.
+func (r *Raft) VerifApply(index uint64, data []byte) interface{} {
+	return r.verifFSM().Apply(&raft.Log{Index: index, Term: 1, Type: raft.LogCommand, Data: data})
 }
